@@ -73,7 +73,7 @@ checks = {
     ref="3 C08"),
  "C06": dict(
     technique="stateless exploration of every map iteration order (deviation-bounded DFS over rewritten map ranges) x explicit-state BFS over builder-API histories and decoded documents, with validity / duplicate-member / reference-model / order oracles",
-    text="On a build where every map range of the package is an explorer-owned choice point, each value (all documents of cost <= d, the full product of 14 x-order values of every JSON type on 2 and 3 properties, every distinct value reachable by <= k builder calls with hostile names) is encoded under every map order within 2 deviations; every output must be an error (not a panic) or valid JSON without repeated members, byte-identical across orders, equal to the reference model of the calls, with properties ordered by (x-order, name). Determinism is therefore enumerated, not hoped for across runs.",
+    text="On a build where every map range of the package is an explorer-owned choice point, each value (all documents of cost <= d, the full product of 14 x-order values of every JSON type on 2 and 3 properties, every distinct value reachable by <= k builder calls: hand-modelled calls with hostile names, and every other fluent method of the builder API - found by reflection - on the six carrier types and on the values made by 20 constructors) is encoded under every map order within 2 deviations; every output must be an error (not a panic) or valid JSON without repeated members, byte-identical across orders, equal to the reference model of the calls, with properties ordered by (x-order, name). Determinism is therefore enumerated, not hoped for across runs.",
     note="Map ranges inside package spec are owned; encoding/json sorts map keys itself. The builder reference model is hand-written per call (h/c06.go). Deterministic cases are replayed on the un-instrumented build (conformance).",
     ref="3 C06"),
  "C07": dict(
